@@ -9,7 +9,7 @@ KIND_PROP = {
     'panic': 'C08', 'check': 'C08', 'consistency': 'C08', 'not_idempotent': 'C08', 'foreign_slot': 'C08',
     'readd_alloc': 'C09', 'readd_neq': 'C09', 'lookup_none': 'C09', 'lookup_neq': 'C09', 'handle_slots': 'C09',
     'eq_lost': 'C13', 'slots_grew': 'C13', 'progress_direction': 'C13',
-    'data_wrong': 'C14', 'data_merge': 'C14',
+    'data_wrong': 'C14', 'data_not_fixpoint': 'C14',
     'count_mismatch': 'C10',
     'rw_missing_eq': 'C04', 'probe_missing': 'C04', 'rw_unsound_eq': 'C05', 'unbound_var': 'C05', 'match_not_represented': 'C05', 'match_mutated': 'C05',
     'false_but_changed': 'C15', 'false_but_new': 'C15',
@@ -196,12 +196,13 @@ def judge_record(tmpl, rec):
             if ra.get('lookup_eq_add') is False: out.append(('lookup_neq', k, None))
         # analysis data
         if 'data' in next(iter(st['classes'].values()), {}):
+            want_all = O.min_costs(C, 'AstSize' if tmpl.analysis == 'MinSize' else 'Depth')
             for i in range(n):
                 if not known[i]: continue
-                d = st['classes'].get(str(st['canon'][i]['id']), {}).get('data')
-                if tmpl.analysis == 'MinSize':
-                    want = C.min_size(hts[i])
-                    if d != want: out.append(('data_wrong', k, [i, d, want]))
+                cl = st['classes'].get(str(st['canon'][i]['id']), {})
+                d = cl.get('data'); want = want_all.get(C.cls(hts[i]))
+                if d != want: out.append(('data_wrong', k, [i, d, want]))
+                if cl.get('data_fix') is not None and cl.get('data_fix') != d: out.append(('data_not_fixpoint', k, [i, d, cl.get('data_fix')]))
         # monotonicity against the previous step
         if prev is not None:
             pn = len(prev['canon'])
